@@ -641,7 +641,7 @@ theorem import_exact_static_joined (batch : Nat) (hb : batch > 0) (c : Ctx) (w :
   have hS := scanJ_fresh hKN hC hI hG0 hGt hbal
   obtain ⟨a, b, d, e⟩ := run_scanJ hb hKN hC (List.contains_iff_mem.2 hw) n s v 0 ⟨some 0, false⟩ s' v' hS hst rfl hbest
     (Nat.zero_le _) hnb (runBatches_runImport batch c w n s v s' v' items h)
-  exact ⟨scanJ_tip_inv hKN hC a hbest hI e, b, d, fun w' hw' => ⟨e.1 w' hw', e.2.1 w' hw'⟩, e.2.2⟩
+  exact ⟨scanJ_tip_inv hKN hC a hbest, b, d, fun w' hw' => ⟨e.1 w' hw', e.2.1 w' hw'⟩, e.2.2⟩
 
 open MW.Lemmas.ImportExact MW.Lemmas.ImportJoin MW.Lemmas.Ledger in
 /-- **import_exact_static_full** — the FULL statement of stage 1 (kept word for word from the round in which it was
